@@ -417,6 +417,26 @@ def io_error_class(prog, v):
     return None, None
 
 
+def window(desc):
+    """(base, start) of the slice `base[start..]` handed to the source / sink, however the slicing was spelled
+    (`v[o..]` on the Vec, `&v[..][o..]`, a helper taking the slice and the offset)"""
+    import re
+    d = str(desc)
+    for _ in range(4):
+        m_ = re.match(r'^sub\((.*),\s*(.*?)\.\.\)$', d)
+        if m_:
+            inner, start = m_.group(1), m_.group(2)
+            b_, s_ = window(inner)
+            if s_ in ('', '0', None):
+                return b_, start
+            return b_, '%s + %s' % (s_, start)
+        break
+    m_ = re.match(r'^(.*)\[(.*?)\.\.\]$', d)
+    if m_:
+        return m_.group(1), m_.group(2)
+    return d, None
+
+
 def known(o):
     return o.st.extra.get('known') or {}
 
